@@ -1,4 +1,43 @@
-(* placeholder so that the pipeline can be exercised; replaced by the real theorems *)
-From SV Require Import Names Rep.
-Theorem C14_placeholder : True. Proof. exact I. Qed.
-Print Assumptions C14_placeholder.
+(* C14 -- at index i a filtration answers as the complex at i; stepping.
+   Theorem statements only; proofs in FiltProofs.v.  The faithful model *violates* the statement
+   for maxOrder, simplicesOfOrder and bettiNumbers (they ignore the index): refuted by a witness
+   that replays on /repo (known findings).  The index-aware queries are compared with the snapshot
+   by the oracle (tested_only). *)
+From Coq Require Import String ZArith Bool Arith List.
+From SV Require Import Names NamesFacts ListFacts Rep Fresh Complex Atomic RepInv Homology Filtration FiltProofs.
+Import ListNotations.
+
+Theorem C14_maxOrder_refuted : maxOrder (f_rep witness) <> maxOrder (snap_rep witness).
+Proof. exact maxOrder_ignores_index_refuted. Qed.
+Print Assumptions C14_maxOrder_refuted.
+Theorem C14_simplicesOfOrder_refuted : simplicesOfOrder (f_rep witness) 1 <> simplicesOfOrder (snap_rep witness) 1.
+Proof. exact simplicesOfOrder_ignores_index_refuted. Qed.
+Print Assumptions C14_simplicesOfOrder_refuted.
+Theorem C14_bettiNumbers_refuted :
+  bettiNumbers (f_rep witness) (Some [0]) <> bettiNumbers (snap_rep witness) (Some [0]).
+Proof. exact bettiNumbers_ignores_index_refuted. Qed.
+Print Assumptions C14_bettiNumbers_refuted.
+
+(* membership at index i is membership among the simplices born at or before i, monotone in i *)
+Theorem C14_membership_monotone :
+  forall f i j s, (i <= j)%Z -> f_contains (at_index f i) s = true -> f_contains (at_index f j) s = true.
+Proof. exact contains_monotone. Qed.
+Print Assumptions C14_membership_monotone.
+
+(* setNextIndex / setPreviousIndex move to the adjacent index of the sorted index list and do
+   nothing at the ends *)
+Theorem C14_next : forall f i, index_in (f_index f) (f_indices f) 0 = Some i ->
+  S i < length (f_indices f) -> snd (f_setNext f) = Ok (nth (S i) (f_indices f) 0%Z).
+Proof. exact next_moves_to_adjacent. Qed.
+Print Assumptions C14_next.
+Theorem C14_next_at_end : forall f i, index_in (f_index f) (f_indices f) 0 = Some i ->
+  S i = length (f_indices f) -> f_setNext f = (f, Ok (f_index f)).
+Proof. exact next_stays_at_the_end. Qed.
+Print Assumptions C14_next_at_end.
+Theorem C14_prev : forall f i, index_in (f_index f) (f_indices f) 0 = Some (S i) ->
+  snd (f_setPrev f) = Ok (nth i (f_indices f) 0%Z).
+Proof. exact prev_moves_to_adjacent. Qed.
+Print Assumptions C14_prev.
+Theorem C14_prev_at_start : forall f, index_in (f_index f) (f_indices f) 0 = Some 0 -> f_setPrev f = (f, Ok (f_index f)).
+Proof. exact prev_stays_at_the_start. Qed.
+Print Assumptions C14_prev_at_start.
